@@ -81,7 +81,7 @@ def parseCmd? (fs : List String) : Option Cmd :=
   | ["tok-expire", l] => some (.tokExpire l)
   | ["ent-disable", e, "1"] => some (.entDisable e true)
   | ["ent-disable", e, "0"] => some (.entDisable e false)
-  | ["req", tf, op, hp, rm] => do
+  | ["req", tf, op, hp, rm] | ["reqns", tf, op, hp, rm] => do
       let tf ← parseTok? tf
       let op ← parseOp? op
       let p ← parseHexStr? hp
@@ -115,6 +115,9 @@ def showReq (c : Class) (evs : List Ev) : String :=
   s!"{showClass c}|{joinOrDash calls}|{joinOrDash mw}|{joinOrDash book}"
 
 def step (s : State) (fs : List String) : State × String :=
+  match fs with
+  | ["inns", _] => (s, "ok")   -- the whole case runs in a child namespace: same script, same answers (paths are namespace-relative)
+  | _ =>
   match parseCmd? fs with
   | none => (s, "bad-op")
   | some cmd =>
